@@ -48,7 +48,7 @@ func (context) Assumptions() []string {
 func (context) Components() map[string]string {
 	return map[string]string{
 		"ion package (text and binary Readers, readLocalSymbolTable, symbol tables, basicCatalog)": "real code from /repo working tree",
-		"ion.Catalog":                 "real ion.NewCatalog in 2 of 3 runs; stub sim catalog (arbitrary version sets, counted lookups) in 1 of 3",
+		"ion.Catalog":                "real ion.NewCatalog in 2 of 3 runs; stub sim catalog (arbitrary version sets, counted lookups) in 1 of 3",
 		"io.Reader under the Reader": "stub: sim.Source (seeded delivery plan)",
 		"symbol-context model":       "ionsim model",
 	}
